@@ -33,6 +33,9 @@ THEOREMS = [
     "MM.composite_insertion_shares_label_pinned",
     "MM.notifyRefs_spec",
     "MM.notifyParts_spec",
+    "MM.composite_insertion_labels",
+    "MM.onPartsObj_insert_labels",
+    "MM.newLabel_after",
     "MM.notifyParts_aligned",
     "MM.onAtomsChanged_length",
     "MM.exchCall_outcome",
